@@ -10,6 +10,7 @@ CONSTANTS
   MaxInjects = 0
   MaxExpires = 0
   MaxLosses = 0
+  MaxLinkChanges = 0
   AsBuilt = TRUE
 VIEW DesignView
 INVARIANTS RecordedPathsOK InFlightPathsOK RelaySkipOK BoundedMessages
